@@ -60,6 +60,13 @@ def d2o_helper(ctx):
     """the private function shared by D2O_match and D2O_sld that computes the four component SLDs (found by its callers)"""
     c = callees_in_common(ctx, "nsf.D2O_match", "nsf.D2O_sld", exclude=("nsf.mix_values",))
     c = [q_ for q_ in c if q_.rsplit(".", 1)[-1].startswith("_")] or c
+    if len(c) > 1:
+        # several shared helpers (validation, argument handling ...): the one that computes SLDs reaches the SLD calculator
+        import networkx as nx
+        cg = ctx.src.callgraph()
+        calc = {ctx.src.func(q_).qual for q_ in ("nsf.neutron_sld", "nsf.neutron_scattering")}
+        c2 = [q_ for q_ in c if q_ in cg and calc & set(nx.descendants(cg, q_))]
+        c = c2 or c
     if len(c) != 1:
         raise AnalysisError(f"expected one helper shared by D2O_match and D2O_sld, found {c}")
     return c[0]
